@@ -2,6 +2,8 @@
 SOURCE_COMMITS = []
 NOTES = "All checks are bounded exhaustive explorations driving the real mchap code (see DESIGN.md)."
 ENGINES = [
+    {"name": "H", "path": "vmc/checks/c09.py", "serves_properties": ["C09"],
+     "kind_free_text": "breadth-first / depth-first explicit-state search over operation histories of the real data structures with canonical-state de-duplication and a reference model evaluated in every state"},
     {"name": "K", "path": "vmc/seams.py, vmc/kasm.py, vmc/kcall.py", "serves_properties": ["C01", "C02", "C18"],
      "kind_free_text": "explicit-state Markov-kernel extraction: sampler bodies run as numba py_func with every random seam replaced by an oracle that records the probability vector and forces each answer; DFS over answer sequences"},
     {"name": "inputs", "path": "vmc/checks", "serves_properties": ["C03", "C04", "C05", "C11", "C17"],
@@ -9,6 +11,10 @@ ENGINES = [
 ]
 _PENDING = "check not built yet in this session (work in progress; see DESIGN.md build order)"
 CHECKS = {
+    "C09": dict(engine="H", category="model_checking",
+                technique="explicit-state BFS over array_map set/get histories vs dict; exhaustive (move, forced answer) histories of a two-chain assemble system in lock-step under three cache configurations; per-call audit of a caller-supplied pedigree cache",
+                text="array_map: every reachable state within the depth bound for six tiny configurations that force growth and flushes, every key read back after every transition. Assemble: every history of base/interval/exchange moves to depth 3 with None / tiny (flushing) / default caches in lock-step: identical seam vectors and trajectories, carried llk == recomputed, every served and stored value == fresh likelihood. Call: cached likelihood over call orders; pedigree: cache inspected after every Gibbs/MH/exchange call on pedigrees with unequal read numbers; jitted DenovoMCMC/_denovo_assembler traces (cache thresholds -1/0/100, heated chains) carry the recomputed llk.",
+                note="Trusted: dict reference, refmodel.llk. Canonical array_map state = exact bytes (no abstraction)."),
     "C03": dict(engine="inputs", category="exploration",
                 technique="bounded exhaustive enumeration of (ploidy, haplotype set, frequencies, F, read multiset) and of all report-field subsets against a reference posterior",
                 text="Every case in the bound is evaluated on both the streaming (posterior_mode) and full-array (genotype_likelihoods/posteriors) paths and on call_exact.program.call_sample_genotypes for every subset of optional report fields; GT/GPM/SPM/AFP/ACP/AOP/GP/GL are compared with an independent normalised likelihood x prior in VCF order.",
